@@ -1564,6 +1564,9 @@ class PCE500Emulator:
             "memory_reads": int(self.memory_read_count),
             "memory_writes": int(self.memory_write_count),
             "pc": int(cpu_snapshot.pc),
+            "power_state": "halted"
+            if getattr(self.cpu.state, "halted", False)
+            else "running",
             "call_depth": int(self.call_depth),
             "call_sub_level": int(cpu_snapshot.call_sub_level),
             "temps": {str(k): int(v) for k, v in cpu_snapshot.temps.items()},
@@ -1674,6 +1677,11 @@ class PCE500Emulator:
             call_sub_level=int(metadata.get("call_sub_level", 0)),
         )
         self.cpu.apply_snapshot(snapshot)
+        # HALT/OFF survive a snapshot (LLAMA snapshots say "halted" or "off").
+        self.cpu.state.halted = metadata.get("power_state", "running") in (
+            "halted",
+            "off",
+        )
 
         snapshot_backend = metadata.get("backend")
         if backend and snapshot_backend and backend != snapshot_backend:
